@@ -189,7 +189,8 @@ def _random_traj(rng, i, tier):
   return _traj(f'r{i}', eq, integ, stack, grid, layers, steps, dt_min,
                inner=int(rng.choice([1, 1, 2, 3])), swi=bool(rng.random() < 0.3),
                oro=bool(rng.random() < 0.8),
-               tref=str(rng.choice(['constant', 'linear', 'tropopause', 'random'])))
+               tref=str(rng.choice(['constant', 'linear', 'tropopause', 'random', 'cooling',
+                                    'isothermal_top'])))
 
 
 def cases(tier, seed):
